@@ -223,6 +223,7 @@ def make_subscriber_cls():
             # does result() still block?
             s.last_wait_blocked = None
             outcome = None
+            R.in_on_done_result = self.tidx
             try:
                 future.result()
                 outcome = ('ok', None)
@@ -230,6 +231,7 @@ def make_subscriber_cls():
                 raise
             except BaseException as e:  # noqa
                 outcome = ('exc', e)
+            R.in_on_done_result = None
             blocked = s.last_wait_blocked
             R.trace.ev('cb.done', t=self.tidx, s=self.sidx, done=isdone,
                        blocked=blocked, outcome=outcome)
@@ -264,6 +266,7 @@ def run_case(case, repo_checks=True):
     R.api = []            # user-thread API events
     R.end = {}
     R.harness_error = None
+    R.in_on_done_result = None
     R.sem_state = None
     R.reenter_exc = InjectedFault('reenter.set_exception')
     R.fs_watch_violations = []
